@@ -34,7 +34,7 @@ PRECONDITIONS = [
     'is set (in-band marker), no field contains the 0x1b separator; with comma_sep the target, input and inst_in contain no comma',
     'inst_out / inst_in are None or non-empty and contain no ";" (the first ";" ends the instance name)',
     'fixup variable names are non-empty, contain no whitespace and do not start with "$" ("$var value" is split on the first space, '
-    'leading "$" are stripped); fixup ids are 0..99 unless cfg.fixup_big_ids (two-digit replaceNN keys)',
+    'leading "$" are stripped); fixup ids are >= 0 (0..99 unless cfg.fixup_big_ids)',
     'ids given explicitly are >= 1 (<= 0 means "allocate"); duplicate ids only together with preserve_ids',
     'make_prism boxes have non-zero size on every axis (ValueError otherwise, documented)',
     'displacement: multiblend data only on displacements where at least one multi_blend is non-zero (the writer keys the block on that)',
@@ -71,7 +71,7 @@ class GenConfig:
     max_cameras: int = 3
     max_cordons: int = 3
     dup_ids: bool = True            # with preserve_ids: explicit ids may repeat
-    fixup_big_ids: bool = False     # fixup ids >= 100 (cannot be carried by two-digit replaceNN parsing)
+    fixup_big_ids: bool = False     # also fixup ids 100..120 (three-digit replaceNNN keys)
     tiny_negative: bool = True      # numbers in (-5e-7, 0): print as "-0" with the unfixed format_float (C05 finding)
     world_extras: bool = True       # outputs / fixups / comments on worldspawn
     nodeid: bool = True             # low-weight "nodeid" keyvalues (VMF.node_id manager)
@@ -880,9 +880,6 @@ def normalise_roundtrip(content: dict, minimal: bool = False, disp_multiblend: b
         w[k] = None                                    # "Worldspawn can't be hidden, so skip these."
     w['keys'] = {k: v for k, v in w['keys'].items() if k.casefold() != 'mapversion'}
     for ent in [w] + c['entities']:
-        ent['fixups'] = [f if 0 <= f[2] <= 99 else [f[0], f[1], None] for f in ent['fixups']]
-        if any(f[2] is None for f in ent['fixups']):
-            ent['fixups'] = sorted(([f[0], f[1], None] for f in ent['fixups']), key=lambda t: t[0])
         for sol in ent['solids']:
             if ent is not w:                           # Solid.export: groups "not allowed inside brush entities"
                 sol['group_id'] = None
